@@ -114,6 +114,8 @@ impl Decoder for Codec {
                 }
                 DecodeState::PublishHeader(fixed) => {
                     if let Some(hdr_len) = decode::publish_size(src, fixed.first_byte)? {
+                        // variable header must fit into the frame
+                        ensure!(fixed.remaining_length >= hdr_len, DecodeError::InvalidLength);
                         if src.len() < hdr_len as usize {
                             return Ok(None);
                         }
